@@ -2,6 +2,7 @@ package vc
 
 import (
 	"os"
+	"path/filepath"
 	"fmt"
 	"go/ast"
 	"go/token"
@@ -206,6 +207,14 @@ func (p *Program) VerifyFunc(fi *FuncInfo) (res *FuncResult) {
 		}
 	}
 	e.bindSignature(st, f, fi.Decl, fi.Decl.Type, recv, args)
+	plan := e.replayPlan(fi, recv, args)
+	defer func() {
+		for _, o := range e.Ctx.Oblig {
+			if o.Replay == nil {
+				o.Replay = plan
+			}
+		}
+	}()
 	e.entryParams = map[types.Object]Term{}
 	for o, v := range st.Vars {
 		e.entryParams[o] = v
@@ -295,6 +304,11 @@ func (p *Program) VerifyFunc(fi *FuncInfo) (res *FuncResult) {
 		for o, v := range e.entryParams {
 			if _, isParam := o.(*types.Var); isParam && !e.boxed[o] && !isResult(f, o) {
 				post.Vars[o] = v
+			}
+		}
+		if plan != nil && len(results) == len(plan.results0) {
+			for i, r := range results {
+				plan.results = append(plan.results, rparam{fmt.Sprintf("r%d", i), plan.results0[i], r})
 			}
 		}
 		e.specRes = results
@@ -649,4 +663,37 @@ func freeVarsOfClause(info *types.Info, x ast.Expr) []string {
 		return true
 	})
 	return out
+}
+
+// replayPlan records what a generic counterexample replay of this function needs.
+func (e *Exec) replayPlan(fi *FuncInfo, recv Term, args []Term) *ReplayPlan {
+	sig, ok := fi.Obj.Type().(*types.Signature)
+	if !ok || fi.Pkg == nil || fi.Pkg.Types == nil {
+		return nil
+	}
+	own := fi.Pkg.Types
+	pl := &ReplayPlan{pkgPath: fi.Pkg.PkgPath, pkgName: own.Name(), fn: fi.Decl.Name.Name, sorts: e.S, variadic: sig.Variadic(), imports: map[string]string{}}
+	pl.pkgDir = filepath.Dir(fi.Pkg.Fset.Position(fi.Decl.Pos()).Filename)
+	pl.qual = func(p *types.Package) string {
+		if p == own {
+			return ""
+		}
+		pl.imports[p.Path()] = p.Name()
+		return p.Name()
+	}
+	ctx := e.Ctx
+	pl.consts = func(name string) bool { _, ok := ctx.consts[name]; return ok }
+	if sig.Recv() != nil {
+		pl.recv = &rparam{"recv", sig.Recv().Type(), recv}
+	}
+	if sig.Params().Len() != len(args) {
+		return nil
+	}
+	for i := 0; i < sig.Params().Len(); i++ {
+		pl.params = append(pl.params, rparam{sig.Params().At(i).Name(), sig.Params().At(i).Type(), args[i]})
+	}
+	for i := 0; i < sig.Results().Len(); i++ {
+		pl.results0 = append(pl.results0, sig.Results().At(i).Type())
+	}
+	return pl
 }
